@@ -1236,6 +1236,7 @@ func init() {
 			{Name: "faults", Weight: 3, Fn: c12Run(c12Opts{Faults: true})},
 			{Name: "ties", Weight: 2, Fn: c12Run(c12Opts{Ties: true})},
 			{Name: "exhaustive-small", Prologue: true, Fn: c12Exhaustive},
+			{Name: "existence-cache-over-sharding", Weight: 1, Fn: func(c *sim.RunCtx) { existenceCacheOverComposite(c, 2) }},
 		},
 		Components: map[string][]string{
 			"real": {"pkg/blobstore/configuration new_blob_access.go / new_blob_replicator.go / creators (W-config runs: the composite is assembled by the unmodified NewBlobAccessFromConfiguration over model leaves)", "pkg/blobstore/sharding: shardingBlobAccess (Get, GetFromComposite, Put, FindMissing fan-out over errgroup, shard-key error handler), rendezvousShardSelector (NewRendezvousShardSelector, GetShard, score, Log2Fixed)", "pkg/blobstore/buffer (error handler wrapping, CAS chunk-reader buffers)", "pkg/digest (digests, sets)", "pkg/util (status wrapping)"},
